@@ -1,7 +1,7 @@
 """C15 extras: a rejected value must leave the object as it was -- for Arrays this includes in-place operators of which only some
 items overflow (shared with C14)."""
 META = {'explanation': 'range/length rejection proved on the setters, helpers and routes; Array in-place operators: bounded list-model differential with rollback.'}
-EXTRA_TASKS = ['array_inplace_rollback', 'creation_routes_isolation', 'array_item_width_mismatch']
+EXTRA_TASKS = ['array_inplace_rollback', 'creation_routes_isolation', 'array_item_width_mismatch', 'struct_code_ranges']
 
 
 def array_inplace_rollback(tier='quick', seed=0):
@@ -71,4 +71,41 @@ def array_item_width_mismatch(tier='quick', seed=0):
     return {'id': 'C15.array_widths', 'obligations': [], 'evaluations': evals,
             'bounded': [{'id': 'C15/array_.Array.extend/an-Array-of-another-item-width-is-refused', 'qualname': 'array_.Array.extend', 'shape': 'pairs of item formats of one kind',
                          'function': 'Array(fmt, Array) / Array.extend(Array)', 'bound': f'{evals} (format pair, route) points', 'evaluations': evals, 'failures': fails[:3]}],
+            'summary': f'{evals} points, {len(fails)} failures'}
+
+
+def struct_code_ranges(tier='quick', seed=0):
+    """every struct-style integer code, under every endianness prefix, accepts exactly the range of its type: the two limits are
+    encoded and read back, one beyond either limit is refused -- by pack and by Array creation and item assignment.  Bounded, native."""
+    import struct
+    from bitstring import pack, Array
+    fails = []
+    evals = 0
+    for prefix in ('<', '>', '=', '@'):
+        for code in 'bBhHlLiIqQ':
+            n = 8 * struct.calcsize('=' + code)          # (the library uses the standard sizes for '@' as well: known finding KF3)
+            lo, hi = (-(1 << (n - 1)), (1 << (n - 1)) - 1) if code.islower() else (0, (1 << n) - 1)
+            fmt = prefix + code
+            for v, inside in ((lo, True), (hi, True), (lo - 1, False), (hi + 1, False)):
+                routes = {'pack': lambda: pack(fmt, v).unpack(fmt)[0], 'Array': lambda: Array(fmt, [v])[0],
+                          'Array item': lambda: (lambda a: (a.__setitem__(0, v), a[0])[1])(Array(fmt, [0]))}
+                for rn, f in routes.items():
+                    evals += 1
+                    try:
+                        got = f()
+                        ok = inside and got == v
+                        obs = f'accepted, reads back {got}'
+                    except ValueError:
+                        ok = not inside
+                        obs = 'refused'
+                    except Exception as e:
+                        ok = False
+                        obs = type(e).__name__
+                    if not ok and len(fails) < 8:
+                        fails.append({'call': f'{rn} with {fmt!r} and the value {v}', 'observed': obs, 'expected': 'accepted and read back' if inside else 'CreationError',
+                                      'python': f"import bitstring\ntry:\n    r = bitstring.pack({fmt!r}, {v}).unpack({fmt!r})[0]\n    a = bitstring.Array({fmt!r}, [{v}])[0]\n"
+                                                f"    FAILS = {not inside} or r != {v} or a != {v}\nexcept ValueError:\n    FAILS = {inside}\n"})
+    return {'id': 'C15.struct_ranges', 'obligations': [], 'evaluations': evals,
+            'bounded': [{'id': 'C15/utils.REPLACEMENTS/struct-codes-accept-exactly-their-range', 'qualname': 'utils.parse_single_struct_token', 'shape': '4 prefixes x 10 integer codes',
+                         'function': 'pack / Array / Array item assignment with struct-style codes', 'bound': '4 prefixes x 10 codes x 4 values x 3 routes', 'evaluations': evals, 'failures': fails[:3]}],
             'summary': f'{evals} points, {len(fails)} failures'}
